@@ -191,7 +191,7 @@ fn faults(c: &mut Case<'_>) -> CaseResult {
     let declared: usize = u.datas.iter().map(Vec::len).sum();
     let kinds = [
         "none", "none", "data-bit", "size-field", "signature", "swap", "duplicate", "delete", "resign-key", "resign-date", "resign-prev", "splice", "truncate", "garbage-after-final", "extra-chunk-after-final", "wrong-decoded-length",
-        "final-chunk-bad-signature",
+        "final-chunk-bad-signature", "signature-length",
     ];
     let mut fault = *c.t.pick(&kinds);
     let mut chunks = u.chunks.clone();
@@ -227,6 +227,18 @@ fn faults(c: &mut Case<'_>) -> CaseResult {
         "signature" | "final-chunk-bad-signature" => {
             let k = if fault == "signature" { c.t.below(n_data.max(1)).min(n - 1) } else { n - 1 };
             chunks[k].signature = flip_hex(c, &chunks[k].signature);
+            body = sigv4::encode_chunks(&chunks);
+            expect = Expect::ErrorAfter { max_chunks: k };
+        }
+        "signature-length" => {
+            // the correct signature cut to a proper prefix (possibly empty) or followed by one more digit: not the chunk's signature
+            let k = c.t.below(n);
+            if c.t.chance(64) {
+                chunks[k].signature.push('0');
+            } else {
+                let cut = c.t.below(64);
+                chunks[k].signature.truncate(cut);
+            }
             body = sigv4::encode_chunks(&chunks);
             expect = Expect::ErrorAfter { max_chunks: k };
         }
@@ -396,7 +408,7 @@ fn faults(c: &mut Case<'_>) -> CaseResult {
 }
 
 pub fn run(r: &mut Runner) {
-    r.rule = "payloads cut into 0..8 chunks of up to 4 KiB (thorough: 0..40 chunks up to 64 KiB) by the reference aws-chunked encoder, sent as signed PutObject/UploadPart, with one fault (bit flip in data/size/signature, swap, duplicate, delete, re-sign with other key/date/previous signature, splice from another request, truncation at a byte offset, garbage or a chained chunk after the final chunk, wrong declared decoded length) under a random transport framing. Non-trivial: >=2 data chunks or any fault; distinct by (fault, chunk sizes, expectation, framing class).".into();
+    r.rule = "payloads cut into 0..8 chunks of up to 4 KiB (thorough: 0..40 chunks up to 64 KiB) by the reference aws-chunked encoder, sent as signed PutObject/UploadPart, with one fault (bit flip in data/size/signature, signature cut short or extended, swap, duplicate, delete, re-sign with other key/date/previous signature, splice from another request, truncation at a byte offset, garbage or a chained chunk after the final chunk, wrong declared decoded length) under a random transport framing. Non-trivial: >=2 data chunks or any fault; distinct by (fault, chunk sizes, expectation, framing class).".into();
     r.assumptions = vec![
         "the reference encoder is validated against the AWS documentation example (seed and three chunk signatures, total length)".into(),
         "what happens to bytes after the signed zero-length chunk is not asserted beyond 'no unverified byte is delivered'".into(),
